@@ -6,6 +6,7 @@ C13.R3        resolve binds the message only after message-found and field-exist
 """
 import facts
 from facts import AnalysisBroken
+import rules.common as common
 
 
 def composite(ctx, rid, qname, mode):
@@ -439,7 +440,68 @@ def r7(ctx):
     if n < 2:
         raise AnalysisBroken('C13.R7: only %d stores into m_conditions found' % n)
 
+def _linear(fn, x):
+    """x as (terms: key -> coefficient, constant) for sums/differences of calls, names and integer constants"""
+    x = fn.strip(x, casts=True)
+    v = fn.nodes[x]
+    if fn.val(x) is not None and v['k'] != 'DeclRefExpr':
+        return {}, fn.val(x)
+    if v['k'] == 'BinaryOperator' and v['op'] in ('+', '-'):
+        ta, ca = _linear(fn, v['lhs'])
+        tb, cb = _linear(fn, v['rhs'])
+        sg = 1 if v['op'] == '+' else -1
+        t = dict(ta)
+        for k, c in tb.items():
+            t[k] = t.get(k, 0) + sg * c
+        return t, ca + sg * cb
+    return {fn.key(x): 1}, 0
+
+
+def r9(ctx):
+    ctx.rule('C13.R9', 'lengths are compared in one unit: m_id counts PB SB and the further ID bytes, the data size of a telegram '
+             '(getDataSize / getCalculatedDataSize) counts from the byte behind NN, i.e. the ID bytes behind PB SB and the data. '
+             'Wherever message.cpp compares the two, the constants on both sides differ by exactly the 2 bytes PB SB (0 when '
+             'getIdLength() is used): otherwise the arrival of a read request with master data is not time-stamped and a '
+             'condition on it keeps a stale verdict', minimum=1)
+    fb = ctx.fb
+    seen = set()
+    n = 0
+    for fn in fb.functions:
+        if not fn.relfile.startswith('src/lib/ebus/message.') or not fn.nodes or (fn.name, fn.sig) in seen:
+            continue
+        seen.add((fn.name, fn.sig))
+        for x, v in sorted(fn.nodes.items()):
+            if v['k'] != 'BinaryOperator' or v['op'] not in ('<', '<=', '>', '>='):
+                continue
+            ta, ca = _linear(fn, v['lhs'])
+            tb, cb = _linear(fn, v['rhs'])
+            t = dict(ta)
+            for k, c in tb.items():
+                t[k] = t.get(k, 0) - c
+            t = {k: c for k, c in t.items() if c}
+            ds = [k for k in t if k.endswith('.getDataSize()') or k.endswith('.getCalculatedDataSize()')]
+            ids = [k for k in t if k in ('this.m_id.size()', 'this.getIdLength()')]
+            if len(ds) != 1 or len(ids) != 1 or len(t) != 2:
+                continue
+            n += 1
+            ctx.touch(fn)
+            # ds*cd + id*ci + (ca - cb) op 0 with cd = -ci: data + k op id  <=>  k = (ca - cb) / cd
+            cd, ci = t[ds[0]], t[ids[0]]
+            k = (ca - cb) * (1 if cd > 0 else -1)
+            # normal form "data + K > id" (or its negation): with data on the greater side of >= / lesser side of < add 1
+            op = v['op'] if cd > 0 else {'<': '>', '<=': '>=', '>': '<', '>=': '<='}.get(v['op'], v['op'])
+            if op in ('>=', '<'):
+                k += 1
+            want = 2 if ids[0] == 'this.m_id.size()' else 0
+            ok = cd == -ci and abs(cd) == 1 and k == want
+            ctx.ob('C13.R9', fn, x, ok, 'data size against ID length in %s' % fn.name.split('::')[-1],
+                   'data size %+d compared with %s, the units differ by %d' % (k, ids[0].replace('this.', ''), want))
+    if n < 1:
+        raise AnalysisBroken('C13.R9: no comparison of a data size with the ID length found in message.cpp')
+
+
 def run(ctx):
+    r9(ctx)
     r1(ctx)
     r2(ctx)
     r3(ctx)
@@ -450,3 +512,7 @@ def run(ctx):
                'field at the same byte/bit position as the length computation and the text decoder do')
     r6(ctx)
     r7(ctx)
+    ctx.rule('C13.R8', 'a derived or combined condition refers to the same message as the condition it was made from: at every '
+             'call in message.cpp whose arguments are named like parameters of the callee (circuit, level, name, ...) no two '
+             'of them are passed crosswise', minimum=20)
+    common.swapped_args_rule(ctx, 'C13.R8', ('src/lib/ebus/message.',), 20)
